@@ -34,7 +34,7 @@ mod h {
         setup_eval(module, ty, a, b, false)
     }
     fn setup_eval<'c>(module: &'c mut ModuleBuilder, ty: Type, a: u64, b: u64, eval: bool) -> (FuncGen<'c>, Value, Value) {
-        let mut g = FuncGen { module, builder: FunctionBuilder::new() };
+        let mut g = FuncGen { module, builder: FunctionBuilder::new(), block_map: VarMap::new() };
         g.builder.eval = eval;
         let va = g.builder.declare_var(ty);
         let na = g.builder.push(ty, Kind::Input, a);
@@ -574,6 +574,95 @@ mod h {
         assert!(!g.builder.trapped, "OBL:C10.codegen.other_arms.no_trapping_opcode");
         assert!(!g.builder.ill_typed, "OBL:C10.codegen.other_arms.well_typed_for_cranelift");
         kani::cover!(which == 4, "COV:C10.codegen.fdiv_reached");
+    }
+
+    // ----------------------------------------------------------------- control transfer
+    /// C01 (match / if / while): the Switch arm sends control to the block of the branch whose
+    /// index EQUALS the examined value and to the default block for every other value - for every
+    /// examinee width, every value, and 0..3 branches with arbitrary distinct indices.
+    fn switch_contract(n: usize) {
+        let ty = any_int_type();
+        let v: u64 = kani::any();
+        let mut m = new_module();
+        let (mut g, _na, _nb) = setup_eval(&mut m, ty, v, 0, true);
+        let v = v & ty.mask();
+        let idx: [usize; 3] = [kani::any(), kani::any(), kani::any()];
+        kani::assume(idx[0] != idx[1] && idx[0] != idx[2] && idx[1] != idx[2]);
+        let mut branches: Vec<(usize, LabelRef)> = Vec::new();
+        let mut i = 0;
+        while i < n {
+            branches.push((idx[i], LabelRef(10 + i)));
+            i += 1;
+        }
+        let default = LabelRef(20);
+        g.arm_switch(&place(0), &branches, &default);
+        // the label -> block map the arm left behind is what later blocks are emitted under
+        let mut expect = g.block_map.get(&default).copied();
+        let mut i = 0;
+        while i < n {
+            if idx[i] as u64 == v {
+                expect = g.block_map.get(&LabelRef(10 + i)).copied();
+            }
+            i += 1;
+        }
+        assert!(g.builder.n_terms == 1 && expect.is_some() && g.builder.target() == expect, "OBL:C01.codegen.switch.goes_to_the_branch_whose_index_equals_the_value_else_default");
+        // distinct labels keep distinct blocks
+        let mut distinct = true;
+        let mut i = 0;
+        while i < n {
+            if g.block_map.get(&LabelRef(10 + i)) == g.block_map.get(&default) {
+                distinct = false;
+            }
+            let mut j = 0;
+            while j < i {
+                if g.block_map.get(&LabelRef(10 + i)) == g.block_map.get(&LabelRef(10 + j)) {
+                    distinct = false;
+                }
+                j += 1;
+            }
+            i += 1;
+        }
+        assert!(distinct && !g.builder.ill_typed, "OBL:C01.codegen.switch.distinct_labels_get_distinct_blocks");
+        kani::cover!(n == 0 || idx[0] as u64 == v, "COV:C01.codegen.switch_branch_taken");
+        kani::cover!(n == 0 || (idx[0] as u64 != v && v != 0 && idx[0] != 0), "COV:C01.codegen.switch_nonzero_value_other_than_the_index");
+    }
+    #[kani::proof]
+    #[kani::unwind(6)]
+    fn c01_u4_switch_0_branches() { switch_contract(0); }
+    #[kani::proof]
+    #[kani::unwind(6)]
+    fn c01_u4_switch_1_branch() { switch_contract(1); }
+    #[kani::proof]
+    #[kani::unwind(6)]
+    fn c01_u4_switch_2_branches() { switch_contract(2); }
+    #[kani::proof]
+    #[kani::unwind(6)]
+    fn c01_u4_switch_3_branches() { switch_contract(3); }
+
+    /// a label that already has a block keeps it (a jump into a block emitted earlier)
+    #[kani::proof]
+    #[kani::unwind(6)]
+    fn c01_u4_jump_and_block_identity() {
+        let mut m = new_module();
+        let (mut g, _na, _nb) = setup(&mut m, I8, 0, 0);
+        let b1 = g.get_block(LabelRef(5));
+        let b2 = g.get_block(LabelRef(6));
+        let b1again = g.get_block(LabelRef(5));
+        assert!(b1 == b1again && b1 != b2, "OBL:C01.codegen.get_block.one_block_per_label");
+        g.arm_jump(&LabelRef(6));
+        assert!(g.builder.n_terms == 1 && g.builder.target() == Some(b2), "OBL:C01.codegen.jump.goes_to_the_block_of_the_label");
+        kani::cover!(true, "COV:C01.codegen.jump_reached");
+    }
+
+    #[kani::proof]
+    #[kani::unwind(6)]
+    fn canary_c01_u4_switch() {
+        let v: u64 = kani::any();
+        let mut m = new_module();
+        let (mut g, _na, _nb) = setup_eval(&mut m, I8, v, 0, true);
+        let branches = vec![(1usize, LabelRef(10))];
+        g.arm_switch(&place(0), &branches, &LabelRef(20));
+        assert!(g.builder.target() == g.block_map.get(&LabelRef(20)).copied(), "CANARY:C01.codegen.switch.always_default");
     }
 
     #[kani::proof]
